@@ -70,7 +70,7 @@ func c03Gen(tier string, seed int64) []fw.Case {
 			}
 			add(d)
 		}
-		if i%2 == 0 {
+		if i%4 < 2 {
 			// the peer has sent everything before the handshake is over on this side
 			d.Chunking = "early"
 			add(d)
